@@ -348,6 +348,11 @@ def replay_tracker(S, kv, idx, beh):
         out["epochs"] = [[e[0], T.t.current_epoch_with_scene(e[0])] for e in s.get("proj", {}).get("epochs", [])]
         steps.append(out)
     res = {"steps": steps}
+    # epilogue of every script: what the tracker holds after the last call (live tracks, then everything wasted() hands out)
+    fin = {"active": sum(T.t.shard_stats())}
+    fin["wasted"] = sorted([w.scene_id, w.epoch, w.length] for w in T.t.wasted())
+    fin["active_after"] = sum(T.t.shard_stats())
+    res["final"] = fin
     if kv.get("probe", "0") == "1":
         res["probe"] = probe(T)
     return res
